@@ -92,7 +92,9 @@ def inventory(spec):
         edge = [':ARG0', ':ARG1', ':ARG2', ':mod', ':op1', ':op2', ':op10', ':domain',
                 ':location', ':time', ':poss', ':part', ':rel', ':x', ':x2-op9', ':x2-op10', ':x2-op100',
                 # numeric suffixes written with leading zeros: :op010 is ten, :op01 and :op1 tie
-                ':op01', ':op010', ':op20']
+                ':op01', ':op010', ':op20',
+                # suffixes beyond ten digits, and roles that spell "-of" before their number (not inverted)
+                ':op9999999999', ':op10000000000', ':x-of2', ':part-of10']
         attr = [':polarity', ':quant', ':value', ':name', ':op1', ':op2', ':mode', ':wiki', ':li', ':y1z12', ':y1z3',
                 ':li07', ':li7', ':li010']
         return edge, attr
@@ -101,7 +103,7 @@ def inventory(spec):
                 ':location', ':time', ':poss', ':part', ':consist-of', ':prep-on-behalf-of',
                 ':purpose', ':manner', ':topic', ':degree', ':cause', ':age', ':name']
         attr = [':polarity', ':quant', ':value', ':mode', ':wiki', ':li', ':op1', ':op2',
-                ':day', ':month', ':year', ':mod', ':polite']
+                ':day', ':month', ':year', ':mod', ':polite', ':domain']
         return edge, attr
     s = spec['spec']
     if ':mod' in s['roles']:
